@@ -19,6 +19,19 @@ func main() {
 	partToNodeClaim(c)
 	partSolve(c)
 	c.Meta.Exhaustive = false
+	c.Meta.Rule = "W: every arrangement of up to 3 (thorough: 4) distinct NodePool names out of {a,ab,b,B} with weights in {nil,1,2}, plus random lists of 2-24 pools " +
+		"(weights nil/0/1/10/10/50/100; >12 pools reaches pdqsort). P: random catalogues of 0-18 instance types with 0-4 offerings (3 zones, 3 capacity types, " +
+		"10 dyadic prices with ties, 20% unavailable, custom-key offerings), requirement sets with zone/capacity-type/custom keys and minValues on instance-type " +
+		"and family, maxItems in {-1,0,1..len,len+1,600}, strict and BestEffort policy. T: ToNodeClaim on real NodeClaimTemplates with MaxInstanceTypes lowered. " +
+		"S: worlds of 2-5 NodePools (weights with ties, template labels/zones/capacity types/taints incl. PreferNoSchedule/limits/minValues; not-ready, static, deleting pools; " +
+		"1-4 instance types per pool incl. reserved offerings with capacity 0/1), one pod (feasible skeleton, at most two perturbations; half with preferred / several required " +
+		"node-affinity terms) or a batch of 2-5 pods, Solve at 1, 4 and 16 workers, then TruncateInstanceTypes + ToNodeClaim. " +
+		"non-trivial = the sort moved an element / the cut drops a type / the pod got a pool that is not first in the order or was deferred; distinct by full input"
+	c.Meta.Extra = map[string]interface{}{"assumptions": []string{
+		"within one addToNewNodeClaim call the evaluation outcome of a template for the pod (NewNodeClaim + CanAdd) is a function of the template only: it reads, and does not write, scheduler state, so it does not depend on the interleaving of the workers (writes to idx/newNodeClaim happen under the mutex and are modelled)",
+		"prices are multiples of 2^-10 below 2^30, so float64 comparison is exact (NaN and MaxFloat64 prices are not generated)",
+		"NodePool names are unique (cluster-scoped API objects), so OrderByWeight's comparator is a strict total order",
+	}}
 	c.Meta.Corr = []string{
 		"nodepoolutils.OrderByWeight = C19.Model.order_by_weight (exact, names unique)",
 		"cloudprovider.InstanceTypes.OrderByPrice: permutation with the price-key sequence of C19.Model.order_by_price (ties free)",
@@ -27,5 +40,9 @@ func main() {
 		"NodeClaimTemplate.ToNodeClaim instance-type requirement = C19.Model.to_nodeclaim_req on lo_slice of the sorted options",
 		"Provisioner.NewScheduler + Scheduler.Solve at 1/4/16 workers: pool of the pod's new NodeClaim = C19.Model.try_schedule over order_by_weight, fed with the real addToNewNodeClaim outcome of every pool alone at every relaxation level",
 	}
-	c.Finish(caseHeader(), "case", "check_all", 500)
+	shard := 500
+	if c.Thorough() {
+		shard = 1000
+	}
+	c.Finish(caseHeader(), "case", "check_all", shard)
 }
